@@ -28,6 +28,14 @@
   entered (`QueryReady`), and `C05_entry_state_handle_message` shows that the state
   `handle_message_with_context` hands over is one.
 
+  The tie between the ghost log and the octets: `C05_log_is_content` — the induction over
+  `handle_non_axfr_query` (Proofs/ServerAnswerContent.lean, `clay_handleNonAxfrQueryL`) that threads
+  the writer's content layout `CLay` (C12) through every operation of the answering phase: from a
+  `Good` writer (invariant + layout `b0`) in which `Hint::Qname` is valid, the writer that
+  `handle_non_axfr_query` leaves is `Good` and laid out as `b0` plus the records of the logged
+  `add_*` calls that succeeded, in call order, by section (`bodyOf`), which is — record for record —
+  the `view` of the log (`BodyView`: owner case-folded, TTL as `Ttl::from` stores it).
+
   The selection of the zone (longest suffix match in the catalog, `handle_query`) is C22 + C07; the
   lifting from the operation log to the decoded octets is C12 (the writer serialises what it was
   given); both are checked end to end on every run by the `audans` oracle, which decodes the real
@@ -37,6 +45,7 @@ import QV.Proofs.ServerAnswer
 import QV.Proofs.ServerAnswerCap
 import QV.Proofs.ServerAnswerEntry
 import QV.Proofs.ServerAnswerTypes
+import QV.Proofs.ServerAnswerDecode
 import QV.Proofs.WriterFaithful
 
 namespace QV.C05
@@ -484,5 +493,27 @@ theorem C09_answer_phase_additional_is_address_only (z : Zone.Zone) (qname : WNa
       | servFail => simp [tailEvs] at h
       | truncation => simp only [tailEvs] at h; split at h <;> simp at h
     · rw [hr] at h; simp [tailEvs] at h
+
+/-! ### the ghost log is what the writer holds (the tie to C12's content layout) -/
+
+open QV.ServerScan QV.ServerContent in
+/-- **the log is the content**: run on a `Good` writer (the writer's invariant, a limit a DNS message
+    can have, content layout `b0`) in which `Hint::Qname` is valid for the queried name,
+    `handle_non_axfr_query` leaves a `Good` writer whose layout is `b0` plus the records of the logged
+    `add_*` calls that succeeded (`bodyOf`, in call order, by section; reset where `clear_rrs` ran);
+    the questions are untouched; and if `b0` held no records, the three record sections of that
+    layout are — record for record — those of the `view` of the log, the abstraction `C05` speaks
+    about. Every `add_*` call is made with a well-formed owner and a valid hint (C01's induction),
+    which is what the writer's per-call content lemmas need. -/
+theorem C05_log_is_content (z : Zone.Zone) (hz : ServerSafety.ZoneOK z) (qname : WName) (hq : qname.WF)
+    (qtype : Nat) (tr : Transport) (hsub : z.apex <:+ fold qname) (w : Writer.State) (b0 : Writer.Body)
+    (hG : Good w b0) (hh : ServerSafety.HintOK Writer.Den w .qname qname) :
+    Good (handleNonAxfrQueryL z qname qtype tr ⟨w, []⟩).2.w
+      (bodyOf b0 (handleNonAxfrQueryL z qname qtype tr ⟨w, []⟩).2.log) ∧
+    (bodyOf b0 (handleNonAxfrQueryL z qname qtype tr ⟨w, []⟩).2.log).qs = b0.qs ∧
+    (b0.an = [] ∧ b0.ns = [] ∧ b0.ar = [] →
+      BodyView (bodyOf b0 (handleNonAxfrQueryL z qname qtype tr ⟨w, []⟩).2.log)
+        (view (handleNonAxfrQueryL z qname qtype tr ⟨w, []⟩).2.log)) :=
+  ⟨good_handleNonAxfrQueryL z hz qname hq qtype tr hsub w b0 hG hh, bodyOf_qs _ _, fun hb => bodyOf_view b0 hb _⟩
 
 end QV.C05
